@@ -5,6 +5,7 @@ ExtractError, which the check reports as a broken tie (not as a verdict by itsel
 Files are rewritten only when their content changes, so an unchanged tree costs no rebuild.
 """
 import ast
+import re
 import os
 
 
@@ -699,6 +700,41 @@ def extract_attr_load(repo):
     return by_presence and not none_test, aliases
 
 
+def extract_purge_cleanup(repo):
+    """which signature entries a purge removes.  Returns 'own' when the only `remove_app_sig(...)` of
+    PurgeAppTask is in `prepare`, outside any loop, guarded by `<x>.is_empty()` where <x> was fetched with
+    `get_app_sig(self.app_label)`; 'other' for anything else that removes entries (another method, a loop, another
+    lookup); 'none' when nothing is removed"""
+    tree = ast.parse(_src(repo, 'django_evolution/evolve/purge_app_task.py'))
+    cls = _find_class(tree, 'PurgeAppTask')
+    calls = []
+    for fn in [n for n in cls.body if isinstance(n, ast.FunctionDef)]:
+        for n in ast.walk(fn):
+            if isinstance(n, ast.Call) and isinstance(n.func, ast.Attribute) and n.func.attr == 'remove_app_sig':
+                calls.append((fn, n))
+    if not calls:
+        return 'none'
+    if len(calls) != 1 or calls[0][0].name != 'prepare':
+        return 'other'
+    fn, call = calls[0]
+    in_loop = any(isinstance(n, (ast.For, ast.While)) and any(c is call for c in ast.walk(n)) for n in ast.walk(fn))
+    guard = None
+    for n in ast.walk(fn):
+        if isinstance(n, ast.If) and any(c is call for st in n.body for c in ast.walk(st)):
+            guard = n
+    if in_loop or guard is None:
+        return 'other'
+    m = re.search(r'(\w+)\.is_empty\(\)', ast.unparse(guard.test))
+    if not m:
+        return 'other'
+    var = m.group(1)
+    fetched = any(isinstance(n, ast.Assign) and len(n.targets) == 1 and isinstance(n.targets[0], ast.Name) and
+                  n.targets[0].id == var and ast.unparse(n.value).endswith('get_app_sig(self.app_label)')
+                  for n in ast.walk(fn))
+    arg = ast.unparse(call.args[0]) if call.args else ''
+    return 'own' if fetched and arg in ('%s.app_id' % var, 'self.app_label') else 'other'
+
+
 def extract_optimizer_copies(repo):
     """AppMutator._preprocess_mutations rebinds `mutations` to a deep copy before anything else uses it"""
     tree = ast.parse(_src(repo, 'django_evolution/mutators/app_mutator.py'))
@@ -801,6 +837,11 @@ def regenerate(repo, outdir):
     parts.append('/-- `FieldSignature._ATTRIBUTE_ALIASES` -/')
     parts.append('def attrAliases : List (String × String) := ' + lean_list(
         '(%s, %s)' % (lean_str(k), lean_str(v)) for k, v in aliases))
+    pc = extract_purge_cleanup(repo)
+    flags['purge_cleanup'] = pc
+    parts.append('')
+    parts.append('/-- which signature entries PurgeAppTask removes: "own" (the purged app\'s, when it is empty), "other", "none" -/')
+    parts.append('def purgeCleanup : String := ' + lean_str(pc))
     ado = extract_attr_default_order(repo)
     flags['attr_default_type_first'] = ado
     parts.append('')
